@@ -343,8 +343,8 @@ def run(rep, tier, seed):
                 seen.add(k)
                 sel.append(i)
         if len(sel) >= 2:
-            life += sel[:6]
-    life = life[: (120 if tier == "quick" else 1500)]
+            life += sel[:4] * 3  # A B C D A B C D A B C D: every model meets what its predecessors left behind more than once
+    life = life[: (180 if tier == "quick" else 2400)]
     life_cases = [dict(cases[i]) for i in life]
     life_meta = [meta[i] for i in life]
     rep.extra["evaluator_lifetimes_in_one_process"] = len(life)
